@@ -38,7 +38,7 @@ def generate(r, tier):
         "p_fault": r.choice([0.0, 0.0, 0.15]),
         "fault_kinds": r.sample(["raise", "bool", "cancel", "repr"], r.randint(1, 3)),
     }
-    world = gen.gen_world(r, is_async, forms=r.random() < 0.5)
+    world = gen.gen_world(r, is_async, forms=r.random() < 0.5, subclass=0.3)
     units = gen.units_of(world)
     hist_mode = r.choice(["none", "ran", "ran", "violated", "faulted"])
     history = []
@@ -221,6 +221,7 @@ def execute(scn):
     stats["faults"] = dict(conc.faults_fired)
     stats["switch_sig"] = common.h64(common.switch_signature(conc.log))
     stats["calls"] = len(cv)
+    stats["state_sigs"] = [common.h64(x) for x in conc.states]
     return {
         "violations": violations,
         "digest": conc.digest(),
